@@ -71,4 +71,14 @@ CLAIMED['C05'] = dict(category='proof',
         'loop body only tests each boundary independently). Termination and exact-on-boundaries are the induction over '
         'iterations of the proved step facts (variant: grid points in (z, L]).',
    technique='contract-based deductive verification (loop cut from the real source, loop-body VCs over mixed integer/real linear arithmetic, z3)')
+CLAIMED['C17'] = dict(category='proof',
+   text='All scalar converters are proved to be mutually inverse over the reals with the defining factors (inch, foot, '
+        'Celsius, Fahrenheit, minute, hour), and for a schema-shaped input whose every numeric leaf is a distinct symbolic '
+        'value the real reader functions (convert_assn_deltaT_to_outletT, convert_units -> convert_temperature / '
+        'convert_length / convert_mass_flow_rate) are proved to apply the converter exactly once to every length, '
+        'temperature, temperature-difference and flow-rate leaf of every section and to leave every other leaf unchanged, '
+        'without raising, for every unit combination (quick: 9 combinations covering every unit; thorough: all 90).',
+   note=_ASSUME + 'The dimension table (which key is a length / temperature / flow) is ours, written from the property '
+        'statement and input_template.txt. Output-side conversions are not decided.',
+   technique='contract-based deductive verification (proxy execution of the real reader functions on a symbolic input tree, exact normaliser)')
 NOT_APPLICABLE = {f'C{i:02d}': 'check not built yet in this round (see DESIGN.md section 12 build order)' for i in range(1, 21)}
